@@ -15,4 +15,8 @@ def jobs(tier, ws, prop='C11'):
     js.append(Job(prop + '/ncmpio_read_write', prop, ['src/drivers/ncmpio/ncmpio_file_io.c'] + COMMON, 'C11_read_write.c',
                   enforce='ncmpio_read_write', extra_src=MODEL, canaries=['transferred', 'failure_reported', 'packed_path'], unwind=40, kind='proof', timeout=600,
                   assumptions=['ncmpio_read_write instance: predefined element type, count <= 16, packing buffer < 1 KiB; MPI_Pack/MPI_Unpack bookkeeping only']))
+    js.append(Job(prop + '/wait_getput', prop, ['src/drivers/ncmpio/ncmpio_wait.c'] + COMMON, 'C11_wait_getput.c', enforce='ncmpio_wait.c:wait_getput',
+                  replace=['ncmpio_wait.c:calculate_access_range', 'qsort', 'ncmpio_wait.c:req_aggregation', 'ncmpio_write_numrecs'], extra_src=MODEL,
+                  canaries=['grew', 'agg_error_returned', 'wrote'], unwind=40, kind='bounded', timeout=600, rfp=True,
+                  bound='2 sub-requests with symbolic access ranges', assumptions=['wait_getput: calculate_access_range, qsort and req_aggregation by (assumed) contract']))
     return js
